@@ -27,6 +27,7 @@ ASSUMPTIONS = ["thresholds strictly between the left truncation and -h (C13 doma
 REQUIRED_COUNTERS = ["chain_vs_closed_form_1d", "chain_vs_region_mass_nd", "closed_form_vs_inclusion_exclusion", "monotonicity_checks",
                      "relation_checks", "inverse_roundtrips", "cds_expectation_checks", "threshold_on_cell_boundary"]
 MIN_NONTRIVIAL = {"quick": 30, "thorough": 400}
+THOROUGH_ROUNDS = 20      # the thorough tier runs the generators this many times (different seeds)
 SHARD_TIMEOUT = {"quick": 900, "thorough": 7200}
 
 
